@@ -427,15 +427,16 @@ def m_format(ex, st, recv, args, kwargs, node):
                 if v is None or not isinstance(v.ty, Ty.TStr):
                     ok = False
                     break
-                out.append(str_of(v))
+                out.append(v.py if v.has_py else str_of(v))
             elif p:
                 if '{' in p or '}' in p:
                     ok = False
                     break
-                out.append(z3.StringVal(p))
+                out.append(p)
         if ok:
-            if not out:
-                return [(st, const_sv(''))], []
+            if all(isinstance(x, str) for x in out):
+                return [(st, const_sv(''.join(out)))], []
+            out = [z3.StringVal(x) if isinstance(x, str) else x for x in out]
             return [(st, S(out[0] if len(out) == 1 else z3.Concat(*out)))], []
     return [(st, S(fresh('fmt', StrS)))], []
 
